@@ -41,6 +41,9 @@ def run_property(prop, tier, engine=None, write=True, quiet=False):
             from .selfval.runner import thorough as selfval
             extra.update(check_all(R))
             extra.update(selfval(prop, R, seed))
+            # (d) rename robustness: a behaviour-preserving rename must never produce a finding
+            from .selfval.renames import thorough_renames
+            extra.update(thorough_renames(prop, R, seed))
             # (c) informational: generic condition-level mutants of the functions this check looked at
             from .selfval.sweep import thorough_sweep
             extra.update(thorough_sweep(prop, R, seed))
